@@ -406,6 +406,13 @@ func runC14(r *rep.R) {
 		}
 		run(scn, kk)
 	}
+	if thorough(r) {
+		// three modifications during one call on the small repositories, two on larger ones
+		run(faultRepos[0], 3)
+		run(faultRepos[1], 3)
+		run(c14Scn{Recs: []recShape{{Type: 1, Enc: 3, NChar: 5}, {Type: 0x12}, {Type: 1, Enc: 2, NChar: 9}, {Type: 1, Enc: 1, NChar: 7}}, IDs: []uint16{0, 5, 6, 0x4000}, Faults: true}, 2)
+		run(c14Scn{Recs: []recShape{{Type: 1, Enc: 3, NChar: 2}, {Type: 1, Enc: 0, NChar: 3}, {Type: 2}, {Type: 1, Enc: 3, NChar: 16, Pad: 5}, {Type: 1, Enc: 2, NChar: 21}}, IDs: []uint16{0x20, 0x1F, 0x1E, 0x8000, 0xFFFE}, Faults: true}, 2)
+	}
 	r.Bound("max_records_exhaustive", n)
 	r.Bound("fault_deviations", map[bool]int{true: 2, false: 1}[thorough(r)])
 	r.Assume("a modification both within the same second and without reservation loss is undetectable by the protocol and is not generated")
